@@ -461,10 +461,10 @@ impl Prop for Finds {
     }
     fn streams(&self) -> Vec<Stream> {
         match self.0 {
-            Which::Prefix => vec![Stream::new("gen", 6400, 320000), Stream::new("vocab", 8, 8), Stream::new("corpus", 640, 3285 * 2), Stream::new("big", 16, 160)],
-            Which::Typo => vec![Stream::new("gen", 2400, 48000), Stream::new("vocab", 8, 8), Stream::new("corpus", 480, 3285 * 2), Stream::new("letters", 600, 6000), Stream::new("big", 16, 160)],
-            Which::Whole => vec![Stream::new("gen", 12800, 640000), Stream::new("vocab", 8, 8), Stream::new("corpus", 1600, 3285 * 2), Stream::new("big", 16, 160)],
-            Which::SplitJoin => vec![Stream::new("gen", 6400, 192000), Stream::new("vocab", 8, 8), Stream::new("corpus", 960, 3285 * 2), Stream::new("big", 16, 160)],
+            Which::Prefix => vec![Stream::new("gen", 6400, 320000), Stream::new("vocab", NL, NL), Stream::new("corpus", 640, 3285 * 2), Stream::new("big", 16, 160)],
+            Which::Typo => vec![Stream::new("gen", 2400, 48000), Stream::new("vocab", NL, NL), Stream::new("corpus", 480, 3285 * 2), Stream::new("letters", 600, 6000), Stream::new("big", 16, 160)],
+            Which::Whole => vec![Stream::new("gen", 12800, 640000), Stream::new("vocab", NL, NL), Stream::new("corpus", 1600, 3285 * 2), Stream::new("big", 16, 160)],
+            Which::SplitJoin => vec![Stream::new("gen", 6400, 192000), Stream::new("vocab", NL, NL), Stream::new("corpus", 960, 3285 * 2), Stream::new("big", 16, 160)],
         }
     }
     fn floors(&self) -> Vec<(&'static str, u64, u64)> {
@@ -613,7 +613,19 @@ impl Prop for Finds {
                     St::build_sentinel(lang, &recs, recs.len())
                 };
                 let how = if staged { "searched once while it held 1-5 records under limit 1/2/10, then grown; " } else { "" };
+                let mut st = st;
+                let relimit = idx % 4 >= 2;
+                if relimit {
+                    cx.count("catalogues whose limit was lowered for one search of the title and raised again");
+                }
                 for t in &targets {
+                    if relimit {
+                        // the same words searched under a small limit just before (nothing added in between), then limit = N again
+                        st.store.limit = *cx.rng.pick(&[1usize, 2, 10]);
+                        cx.ctx(format!("big lang={} search {:?} under limit {}", lang, t.1, st.store.limit));
+                        let _ = st.search(&t.1);
+                        st.store.limit = recs.len();
+                    }
                     self.check_record(cx, &st, &json!(format!("{}{} records '<random word> {}' plus {} ids titled {:?} plus {:?}, limit = N", how, n, dom, dups, dup_title, &targets[..5])), t, &mut done);
                 }
                 cx.count("catalogues of 4200-9000 records dominated by one word");
